@@ -414,12 +414,16 @@ FE_CHOICES = [
 ]
 
 
-def make_case(seed, n=32, states=("AA", "BB", "CC"), n_unexpected=0):
+def make_case(seed, n=48, states=("AA", "BB", "CC"), n_unexpected=0, n_per_county=3):
     """A small election in which some counties and one classification occur only among nonreporting units and one
-    state may have no reporting unit at all.  x1, x2 are integer valued (exact centring); x1 identifies the unit."""
+    state has no reporting unit at all in half of the cases.  x1, x2 are integer valued (exact centring); x1
+    identifies the unit."""
     rnd = np.random.default_rng(seed)
-    pre, cur = synth.make_election(n=n, states=states, seed=seed, frac_reporting=1.0, n_per_county=3)
+    pre, cur = synth.make_election(n=n, states=states, seed=seed, frac_reporting=1.0, n_per_county=n_per_county)
     pre = synth.with_margin_features(pre)
+    # counties shared by n_per_county units of the same state (synth rotates states, which makes every county a singleton)
+    within = pre.groupby("postal_code").cumcount()
+    pre["county_fips"] = [f"{st}{k // n_per_county:03d}" for st, k in zip(pre.postal_code, within)]
     pre["x1"] = rnd.permutation(n).astype(float)
     pre["x2"] = rnd.integers(0, 7, size=n).astype(float)
     cls = pre["county_classification"].to_numpy(dtype=object).copy()
@@ -429,9 +433,9 @@ def make_case(seed, n=32, states=("AA", "BB", "CC"), n_unexpected=0):
     cls[lonely] = "exurb"
     non[lonely] = True
     pre["county_classification"] = cls
-    # all units of one or two counties outstanding
+    # all units of one county outstanding
     counties = sorted(set(pre.county_fips))
-    for c in rnd.choice(counties, size=2, replace=False):
+    for c in rnd.choice(counties, size=1, replace=False):
         non |= (pre.county_fips == c).to_numpy()
     # the last state reports nothing in half of the cases
     silent_state = None
@@ -439,7 +443,7 @@ def make_case(seed, n=32, states=("AA", "BB", "CC"), n_unexpected=0):
         silent_state = states[-1]
         non |= (pre.postal_code == silent_state).to_numpy()
     # a few more at random
-    non |= rnd.random(n) < 0.12
+    non |= rnd.random(n) < 0.08
     cur = cur.copy()
     pev = np.where(non, rnd.integers(0, 90, size=n), 100)
     for c in ("results_turnout", "results_dem", "results_gop"):
@@ -463,24 +467,25 @@ def run_recorded(job):
     seed = job["seed"]
     est = job["estimator"]
     states = ("AA", "BB", "CC")
-    pre, cur, meta = make_case(seed, n=job.get("n", 32), states=states, n_unexpected=job.get("n_unexpected", 0))
     mp = {}
     if est == "bootstrap":
         estimands, features = ("margin",), ("baseline_normalized_margin", "x1")
         mp["B"] = 6
         if job.get("sep"):
             mp["states_for_separate_model"] = list(job["sep"])
+        npc = 8  # few counties: the OLS solver needs more rows than columns in every cross-validation fold
     else:
         estimands, features = ("turnout",), ("x1", "x2")
-    if job.get("outliers"):
-        mp["fit_turnout_outlier_model"] = True
-        mp["fit_margin_outlier_model"] = est == "bootstrap"
+        npc = 3
+    pre, cur, meta = make_case(seed, n=job.get("n", 48), states=states, n_unexpected=job.get("n_unexpected", 0), n_per_county=npc)
+    mp["fit_turnout_outlier_model"] = bool(job.get("outliers"))
+    mp["fit_margin_outlier_model"] = bool(job.get("outliers")) and est == "bootstrap"
     with Recorder() as rec:
         synth.run_client(
             pre,
             cur,
             estimands=estimands,
-            pis=(0.7, 0.9),
+            pis=(0.7, 0.8),
             thr=100,
             features=features,
             aggregates=["postal_code", "unit"],
